@@ -98,7 +98,11 @@ func main() {
 	mutantMode := flag.String("mutant", "", "internal: run rules with this mutant applied through an overlay, print result keys as JSON")
 	noMut := flag.Bool("nomutants", false, "thorough tier without the mutation catalogue")
 	listMut := flag.Bool("list-mutants", false, "list the property's mutants")
+	sweep := flag.Bool("sweep", false, "development aid: load -repo once and run the rules of ALL properties against it, printing every non-ok obligation as `Cnn: key=…` (no evidence, no controls, no mutants) — used by tools/run_refactors.sh and tools/run_seeded.sh; the registered checks never use it")
 	flag.Parse()
+	if *sweep {
+		os.Exit(runSweep(*repo))
+	}
 	if t := os.Getenv("VERIF_TIER"); t != "" && !isFlagSet("tier") {
 		*tier = t
 	}
@@ -330,4 +334,46 @@ func runConfig(pd *PropDef, repo string, cs configSpec, overlay map[string][]byt
 		"functions": len(p.repoFuncs), "load_s": time.Since(t0).Seconds(),
 	}
 	return c.Results, unit, c.ruleDocs, nil
+}
+
+// runSweep: one load, every property's rules.  Prints non-ok obligations; exit 1 if any, 2 on load failure.
+func runSweep(repo string) int {
+	p, err := Load(LoadConfig{Dir: repo, GOOS: quickConfigs[0].GOOS, GOARCH: quickConfigs[0].GOARCH})
+	if err != nil {
+		fmt.Printf("SWEEP load error: %v\n", err)
+		return 2
+	}
+	var ids []string
+	for id := range props {
+		ids = append(ids, id)
+	}
+	sort.Strings(ids)
+	bad := 0
+	for _, id := range ids {
+		pd := props[id]
+		func() {
+			defer func() {
+				if r := recover(); r != nil {
+					bad++
+					fmt.Printf("%s: key=ENGINE-PANIC %v\n", id, r)
+				}
+			}()
+			c := NewCtx(p, pd.ID, quickConfigs[0].String())
+			pd.Run(c)
+			c.checkFloors()
+			seen := map[string]bool{}
+			for _, r := range c.Results {
+				if r.Status == StOK || seen[r.Key] {
+					continue
+				}
+				seen[r.Key] = true
+				bad++
+				fmt.Printf("%s: key=%s\n", id, r.Key)
+			}
+		}()
+	}
+	if bad > 0 {
+		return 1
+	}
+	return 0
 }
